@@ -319,10 +319,235 @@ fn fp31_bound(_env: &Env, _src: &mut Src<'_>) -> CaseResult {
     Ok(CaseOk::new(true, &(n, k), cj))
 }
 
+// ------------------------------------------------------------------------------------------
+// vectorised MAC shares (the pseudonym path: Fp25519 x PRF_CHUNK lanes) and consistent lies
+// ------------------------------------------------------------------------------------------
+
+const LANES: usize = crate::protocol::ipa_prf::PRF_CHUNK;
+type VShare = Replicated<Fp25519, LANES>;
+
+async fn helper_vec(ctx: MaliciousContext<'_>, inputs: Vec<(VShare, VShare)>) -> Result<Vec<Vec<Fp25519>>, Error> {
+    let n = inputs.len();
+    let ctx = ctx.set_total_records(TotalRecords::specified(n)?);
+    let v = ctx.validator::<Fp25519>();
+    let m = v.context();
+    let futs = inputs.into_iter().enumerate().map(|(i, (a, b))| {
+        let m = m.clone();
+        async move {
+            let rid = RecordId::from(i);
+            let (a, b) = (a, b).upgrade(m.clone(), rid).await?;
+            let c = a.multiply(&b, m.narrow("c04mult"), rid).await?;
+            m.validate_record(rid).await?;
+            let opened = reveal(m.narrow("c04open"), rid, &c).await?;
+            Ok::<_, Error>(opened.into_iter().collect::<Vec<Fp25519>>())
+        }
+    });
+    let r = m.try_join(futs).await;
+    drop(v);
+    r
+}
+
+struct VOut {
+    res: [Option<Result<Vec<Vec<Fp25519>>, String>>; 3],
+    catalogue: std::collections::BTreeMap<ChannelKey, Vec<usize>>,
+    fired: bool,
+    more_fired: usize,
+    timed_out: bool,
+}
+
+fn run_world_vec(seed: u64, active: usize, vals: &[([Fp25519; LANES], [Fp25519; LANES])], tampers: Vec<Tamper>, honest_mask: u8) -> VOut {
+    use crate::secret_sharing::{SharedValueArray, Vectorizable};
+    block_on(async {
+        let attacked = !tampers.is_empty();
+        let icpt = Interceptor::new_multi(tampers);
+        let mut wc = TestWorldConfig::default();
+        wc.seed = seed;
+        wc.stream_interceptor = icpt.dynamic();
+        wc.timeout = None;
+        wc.gateway_config.active = active.try_into().unwrap();
+        let world = TestWorld::new_with(&wc);
+        let mut rng = StdRng::seed_from_u64(seed ^ 0x5eed);
+        let mut inputs: [Vec<(VShare, VShare)>; 3] = [vec![], vec![], vec![]];
+        type Arr = <Fp25519 as Vectorizable<LANES>>::Array;
+        let share = |v: &[Fp25519; LANES], rng: &mut StdRng| -> [VShare; 3] {
+            let s1: [Fp25519; LANES] = std::array::from_fn(|_| Fp25519::genv(rng, 9));
+            let s2: [Fp25519; LANES] = std::array::from_fn(|_| Fp25519::genv(rng, 9));
+            let s3: [Fp25519; LANES] = std::array::from_fn(|i| v[i] - s1[i] - s2[i]);
+            let arr = |s: &[Fp25519; LANES]| Arr::from_fn(|i| s[i]);
+            [VShare::new_arr(arr(&s1), arr(&s2)), VShare::new_arr(arr(&s2), arr(&s3)), VShare::new_arr(arr(&s3), arr(&s1))]
+        };
+        for (a, b) in vals {
+            let sa = share(a, &mut rng);
+            let sb = share(b, &mut rng);
+            for (h, (x, y)) in sa.into_iter().zip(sb).enumerate() {
+                inputs[h].push((x, y));
+            }
+        }
+        let ctxs = world.malicious_contexts();
+        let mut futs = futures::stream::FuturesUnordered::new();
+        for (h, (ctx, inp)) in ctxs.into_iter().zip(inputs).enumerate() {
+            futs.push(async move {
+                let r = futures::FutureExt::catch_unwind(std::panic::AssertUnwindSafe(helper_vec(ctx, inp))).await;
+                (h, r)
+            });
+        }
+        let mut res: [Option<Result<Vec<Vec<Fp25519>>, String>>; 3] = [None, None, None];
+        let deadline = tokio::time::Instant::now() + Duration::from_secs(if attacked { 8 } else { 120 });
+        let mut timed_out = false;
+        loop {
+            match tokio::time::timeout_at(deadline, futs.next()).await {
+                Ok(Some((h, r))) => {
+                    let failed = !matches!(r, Ok(Ok(_)));
+                    res[h] = Some(match r {
+                        Ok(Ok(v)) => Ok(v),
+                        Ok(Err(e)) => Err(format!("{e:?}")),
+                        Err(p) => Err(format!("panic: {}", panic_message(&p))),
+                    });
+                    if failed && (honest_mask >> h) & 1 == 1 {
+                        break;
+                    }
+                }
+                Ok(None) => break,
+                Err(_) => {
+                    timed_out = true;
+                    break;
+                }
+            }
+        }
+        let _ = catch(move || drop(futs));
+        let st = icpt.state.lock().unwrap();
+        let out = VOut { res, catalogue: st.catalogue.clone(), fired: st.fired && st.changed, more_fired: st.more_fired, timed_out };
+        drop(st);
+        let _ = catch(move || drop(world));
+        out
+    })
+}
+
+fn fp_bytes(x: Fp25519) -> [u8; 32] {
+    let mut b = GenericArray::default();
+    x.serialize(&mut b);
+    b.into()
+}
+
+/// Vectorised records (16 lanes of Fp25519, as in the pseudonym computation), error *vectors*
+/// over the lanes of one message, optionally repeated consistently in the opening.
+fn vector_attack(env: &Env, src: &mut Src<'_>) -> CaseResult {
+    let n = src.urange(1, 6);
+    let active = src.pick(&[2usize, 4, 8]);
+    let seed = src.seed();
+    let mut rng = StdRng::seed_from_u64(seed);
+    let vals: Vec<([Fp25519; LANES], [Fp25519; LANES])> =
+        (0..n).map(|_| (std::array::from_fn(|_| Fp25519::genv(&mut rng, src.below(6))), std::array::from_fn(|_| Fp25519::genv(&mut rng, src.below(6))))).collect();
+    let pj = json!({"field": "Fp25519", "lanes": LANES, "n": n, "active": active, "seed": seed.to_string()});
+    let honest = run_world_vec(seed, active, &vals, vec![], 0b111);
+    if honest.timed_out {
+        return Ok(CaseOk::new(false, &0u8, serde_json::Value::Null).label("inconclusive:timeout"));
+    }
+    for h in 0..3 {
+        match &honest.res[h] {
+            Some(Ok(v)) => {
+                for (i, (a, b)) in vals.iter().enumerate() {
+                    for l in 0..LANES {
+                        if v[i][l] != a[l] * b[l] {
+                            return Err(violation("honest-wrong-opening", format!("helper {h} opened record {i} lane {l} to a value different from a*b"), pj));
+                        }
+                    }
+                }
+            }
+            other => return Err(violation("honest-rejected", format!("helper {h} failed an honest vectorised execution: {other:?}").chars().take(300).collect::<String>(), pj)),
+        }
+    }
+    let corrupt = src.idx(3);
+    let honest_mask = 0b111 & !(1u8 << corrupt);
+    let left = (corrupt + 2) % 3;
+    let right = (corrupt + 1) % 3;
+    // the message that carries the corrupt helper's product share: multiply step, x component
+    // (gate ends with the step name; the r*x twin runs in a child step), sent to the left
+    let class = src.pick(&["multiply", "multiply-rx-twin", "upgrade"]);
+    let chans: Vec<(&ChannelKey, &Vec<usize>)> = honest.catalogue.iter().filter(|(k, _)| k.source == corrupt && classify_gate(&k.gate) == class && (class != "multiply" || k.gate.ends_with("c04mult"))).collect();
+    if chans.is_empty() {
+        return Err(violation("harness-no-channel", format!("no {class} channel recorded"), pj));
+    }
+    let (key, chunks) = chans[src.idx(chans.len())];
+    let record = src.idx(n);
+    // locate the chunk holding `record`: chunks are whole records of LANES*32 bytes
+    let rec_bytes = LANES * 32;
+    let mut ordinal = 0;
+    let mut first = 0;
+    for (o, len) in chunks.iter().enumerate() {
+        let recs = len / rec_bytes;
+        if record < first + recs {
+            ordinal = o;
+            break;
+        }
+        first += recs;
+    }
+    let d = Fp25519::genv(&mut rng, 9);
+    let (errors, shape): (Vec<(usize, [u8; 32])>, &str) = match src.below(4) {
+        0 => (vec![(src.idx(LANES), fp_bytes(d))], "single-lane"),
+        1 => {
+            let i = src.idx(LANES);
+            let j = (i + 1 + src.idx(LANES - 1)) % LANES;
+            (vec![(i, fp_bytes(d)), (j, fp_bytes(-d))], "two-lanes-zero-sum")
+        }
+        2 => ((0..LANES).map(|l| (l, fp_bytes(d))).collect(), "all-lanes-same"),
+        _ => ((0..LANES).map(|l| (l, fp_bytes(Fp25519::genv(&mut rng, 9)))).collect(), "all-lanes-random"),
+    };
+    let edit = Edit::Fp25519Add { record: record - first, lanes_per_record: LANES, errors: errors.clone() };
+    let mut tampers = vec![Tamper { key: key.clone(), ordinal, edit }];
+    // a consistent lie: the same error on the copy of that share sent in the opening. The share
+    // sent to the left in the multiplication is the helper's left share; in the opening the left
+    // share goes to the right neighbour.
+    let consistent = class == "multiply" && src.bool();
+    if consistent {
+        if let Some((ok, oc)) = honest.catalogue.iter().find(|(k, _)| k.source == corrupt && k.dest == right && k.gate.ends_with("c04open")) {
+            let mut first = 0;
+            let mut ord = 0;
+            for (o, len) in oc.iter().enumerate() {
+                let recs = len / rec_bytes;
+                if record < first + recs {
+                    ord = o;
+                    break;
+                }
+                first += recs;
+            }
+            tampers.push(Tamper { key: ok.clone(), ordinal: ord, edit: Edit::Fp25519Add { record: record - first, lanes_per_record: LANES, errors } });
+        }
+    }
+    let _ = left;
+    let cj = json!({"plan": pj, "corrupt": corrupt, "gate": key.gate, "dest": key.dest, "record": record, "shape": shape, "class": class, "consistent_lie_in_opening": consistent});
+    let nt = tampers.len();
+    let out = run_world_vec(seed, active, &vals, tampers, honest_mask);
+    let mut labels = vec!["field:Fp25519x16".to_string(), format!("msg:{class}"), format!("shape:{shape}"), format!("consistent-lie:{consistent}")];
+    let _ = nt;
+    if !out.fired {
+        return Ok(CaseOk::new(false, &0u8, serde_json::Value::Null).label("edit-not-fired").labels(labels));
+    }
+    let honest_ids: Vec<usize> = (0..3).filter(|h| *h != corrupt).collect();
+    let detected = honest_ids.iter().any(|h| matches!(out.res[*h], Some(Err(_))));
+    let all_honest_ok = honest_ids.iter().all(|h| matches!(out.res[*h], Some(Ok(_))));
+    if detected {
+        labels.push("detected".into());
+    } else if all_honest_ok {
+        return Err(violation(
+            format!("additive-attack-undetected:{class}:Fp25519x{LANES}:{shape}"),
+            format!("H{} added a {shape} error vector to record {record} of a {class} message ({} -> H{}){}; both honest helpers validated and opened", corrupt + 1, key.gate, key.dest + 1, if consistent { " and repeated it in the opening" } else { "" }),
+            cj,
+        ));
+    } else {
+        labels.push("inconclusive:no-honest-verdict".into());
+        return Ok(CaseOk::new(false, &0u8, serde_json::Value::Null).labels(labels));
+    }
+    Ok(CaseOk { nontrivial: true, digest: digest(&(n, active, corrupt, &key.gate, key.dest, record, shape, consistent)), labels, sample: cj })
+}
+
 pub fn subs(_env: &Env) -> Vec<Sub> {
     vec![
         Sub::random("attack", 260, 8000, 300_000, attack,
             "fields {Fp31, Fp32BitPrime, Fp25519}; 1..40 records, active work (= MAC batch size) {2,4,8,16} so totals span non-multiples and several batches; honest run must validate and open a*b on all helpers; then one helper adds e (1, p-1, random) to one element (first / last / random) of one chunk of one of its channels, the channel chosen by message class {upgrade, multiply, multiply r*x twin, propagate u/w, reveal r, check zero, final reveal} first; oracle: some honest helper returns an error from validation or the opening (Fp31 MAC traffic: run-level binomial bound); distinct by (field, n, active, corrupt, gate, dest, first-element?, e=1?)")
+        .shrink_iters(20),
+        Sub::random("vector_attack", 300, 6000, 100_000, vector_attack,
+            "vectorised MAC shares as in the pseudonym computation (Fp25519 x 16 lanes), 1..6 records, active work {2,4,8}: honest run validates and opens a*b lane by lane; then one helper adds an error *vector* (one lane; +d/-d on two lanes; the same d on all lanes; random on all lanes) to one record of its upgrade, multiply or r*x-twin message - optionally repeating it on the copy of that share it sends in the opening (a consistent lie) - and some honest helper must fail validation or the opening")
         .shrink_iters(20),
         Sub::exhaustive("fp31_bound", 1, 1, fp31_bound,
             "run-level check: undetected additive attacks on MAC-protected Fp31 traffic stay within a one-sided binomial bound (p0 = 3/31, alpha = 1e-9)"),
